@@ -143,6 +143,10 @@ func (ci *ChunkInfo) queueProcess(ctx context.Context, rootCid boson.Address) {
 	ci.queuesLk.Lock()
 	defer ci.queuesLk.Unlock()
 	q := ci.getQueue(rootCid.String())
+	if q == nil {
+		// the file was deleted or its discovery cancelled meanwhile
+		return
+	}
 	// pulled + pulling >= pullMax
 	if q.len(Pulled)+q.len(Pulling) >= PullMax {
 		return
